@@ -255,6 +255,36 @@ func VerifC03Grammar(ws1, epoch, upstream, revision, ws2 string, hasEpoch, hasRe
 	return 0
 }
 
+// VerifC03Reuse: unmarshalling into a value that already holds a version gives the same result as parsing
+// afresh (control decoding and text decoding both reuse receivers).
+func VerifC03Reuse(s1, s2 string) int {
+	want, err := Parse(s2)
+	if err != nil {
+		return 0
+	}
+	var v Version
+	if err := v.UnmarshalControl(s1); err != nil {
+		return 0
+	}
+	if err := v.UnmarshalControl(s2); err != nil {
+		return 1
+	}
+	if !eqVersion(v, want) {
+		return 2
+	}
+	var w Version
+	if err := w.UnmarshalText([]byte(s1)); err != nil {
+		return 0
+	}
+	if err := w.UnmarshalText([]byte(s2)); err != nil {
+		return 3
+	}
+	if !eqVersion(w, want) {
+		return 4
+	}
+	return 0
+}
+
 // VerifC03Reject: s belongs to a class the statement says is rejected.  0 = rejected.
 func VerifC03Reject(s string) int {
 	_, err := Parse(s)
@@ -353,6 +383,7 @@ var verifFuncs = map[string]interface{}{
 	"VerifC03Round":   VerifC03Round,
 	"VerifC03Grammar": VerifC03Grammar,
 	"VerifC03Reject":  VerifC03Reject,
+	"VerifC03Reuse":   VerifC03Reuse,
 }
 
 // ---------------------------------------------------------------- C18
